@@ -1,4 +1,5 @@
 import PyTrie.Model.Bin
+import PyTrie.Model.BinRaw
 import PyTrie.Model.Keccak
 /-! Line-protocol front end for the binary trie and the branch helpers (`bin.*`). All tries of a
     session share one database, as BinaryTrie objects sharing one dict do. -/
@@ -43,6 +44,20 @@ def step (st : St) (cmd : String) (args : List String) : St × String :=
   | "set", [i, k, v] => applySet st i k v false
   | "del", [i, k] => applySet st i k "-" false
   | "delsub", [i, k] => applySet st i k "-" true
+  -- raw level: `_set` over hashes and the database as it is now; prints the new root and the entries added
+  | "rawset", [i, k, v, sub] =>
+    match trie i, ofHex k, ofHex v with
+    | some t, some k, some v =>
+      (st, match BinRaw.rawSet keccak (keccak []) (8 * k.length + 4) { db := st.db } (rootOf keccak t) (toBits k) v (sub == "1") with
+        | .ok (h, st') =>
+          let added := st'.db.filter (fun e => !(st.db.any (fun o => o.1 == e.1)))
+          let ded := added.foldl (fun acc e => if acc.any (fun x => x.1 == e.1) then acc else acc ++ [e]) []
+          s!"root={toHex h} added={joinOr ((sortPairs ded).map fun e => s!"{toHex e.1}:{toHex e.2}") ","}"
+        | .error .override => "exn NodeOverrideError"
+        | .error (.keyError _) => "exn KeyError"
+        | .error .invalid => "exn Invalid"
+        | .error .fuel => "exn Fuel")
+    | _, _, _ => bad
   | "get", [i, k] =>
     match trie i, ofHex k with
     | some t, some k => (st, match bgetTop t (toBits k) with | some v => s!"v {toHex v}" | none => "None")
